@@ -544,8 +544,18 @@ func (nr *netRun) checkC04(x *xfer) {
 					closed = true
 				}
 			}
+			// was the transport's CloseChannel reached at all, and what did it say?
+			cause := "close-never-called"
+			for _, tc := range b.TpCalls {
+				if tc.Kind == "close" && tc.ChID == x.chid && tc.Step >= op.Call.S0 && tc.Life == b.life {
+					cause = "close-called-but-failed"
+					if tc.Err != nil && strings.Contains(tc.Err.Error(), "channel not found") || tc.Err != nil && strings.Contains(tc.Err.Error(), datatransfer.ErrChannelNotFound.Error()) {
+						cause = "close-after-cleanup-found-no-channel"
+					}
+				}
+			}
 			if !closed && b.GS.ActiveFor(x.chid.ID) {
-				r.Failf("C04", "rejected-revalidation-transport-not-closed", "", "the responder's application rejected the revalidation of channel #%d (graphsync request alive at the time) but the transport channel was never closed: %s", x.idx, b.GS.DescribeFor(x.chid.ID))
+				r.Failf("C04", "rejected-revalidation-transport-not-closed", cause, "the responder's application rejected the revalidation of channel #%d (graphsync request alive at the time) but the transport channel was never closed: %s", x.idx, b.GS.DescribeFor(x.chid.ID))
 			}
 		}
 	}
